@@ -23,6 +23,17 @@ CLAIMED = {
     ),
 }
 
+CLAIMED["C14"] = dict(
+    text="Theorems by complete evaluation (decide +kernel) over the regenerated 256-entry table: every byte decodes to a character that "
+         "encodes back to the same byte, ASCII on 0x00-0x7E, KOI8-R (frozen Spec table) on 0xC0-0xFF, the codec's dictionary is exactly "
+         "what its comprehension builds; by induction over strings of any length: encoding succeeds iff every character is in the table, "
+         "and the reported error range is [first unencodable, last unencodable + 1). Tie: exhaustive correspondence of the codec "
+         "(256 bytes, all BMP / all 0x110000 code points, random mixed strings) plus '.ascii' and character literals through the assembler.",
+    design_ref="DESIGN.md §5 C14",
+    technique="Lean 4 theorems (decide +kernel on the regenerated table, induction on strings) + exhaustive model/implementation correspondence",
+    note=NOTE + "Modelled, not verified: the Python codec machinery (codecs.register, UnicodeEncodeError plumbing) and how CharLiteral/.ascii turn the exception into 'invalid-character' (exercised through the real assembler).",
+)
+
 PENDING_REASON = "check not built yet (build in progress; see DESIGN.md §8 for the order)"
 
 
